@@ -12,7 +12,7 @@ Event tuples (first field = kind, second = clock):
  finish_service (k, t, nid, candidate ids, candidates blocked flags)
  renege    (k, t, nid, candidate ids, candidates had a server flags)
  route     (k, t, nid, cid, class now, dest, engine counters {n:(pop, in service)}, route before, class before finish, truth {n:(pop, waiting)})
- jockey    (k, t, nid, cid, dest)
+ jockey    (k, t, nid, cid, dest, dest true pop, dest capacity(engine))
  reroute_to(k, t, nid, cid, dest, class)
  classchange_wait (k, t, nid, cid, old class, new class, present?, has server?)
  shift     (k, t, nid)
@@ -23,7 +23,7 @@ Event tuples (first field = kind, second = clock):
  exit      (k, t, cid, completed?)
  arrival   (k, t, node, class, scheduled date, created before, created after)
  arrive_try(k, t, nid, cid, node counter, node capacity(engine), total true pop, node true pop)
- join      (k, t, nid, cid)   logged at entry of accept (the accept tuple is logged at its exit)
+ join      (k, t, nid, cid, re-entrant: the node is in the middle of its own shift change / pre-emption)   logged at entry of accept (the accept tuple is logged at its exit)
  record    (k, t, nid, cid, number of records of that customer after writing)
 """
 import math, functools, random
@@ -74,7 +74,11 @@ def has_real_servers(nd):
 def snapshot(Q, t, evnode, evtype):
     nodes = {}
     for nd in Q.transitive_nodes:
-        inds = [ind_state(i) for i in nd.all_individuals]
+        inds = []
+        for pl, lst in enumerate(nd.individuals):
+            for i in lst:
+                st = ind_state(i); st['plist'] = pl
+                inds.append(st)
         servers = None
         if has_real_servers(nd):
             servers = [dict(id=s.id_number, busy=s.busy, cust=(s.cust.id_number if s.cust not in (False, None) else None), off=s.offduty)
@@ -121,56 +125,57 @@ def instrument(Q, tr):
             idle = any((not s.busy) and (not s.offduty) for s in nd.servers) if real else None
             nwait = sum(1 for i in nd.all_individuals if not i.server) if real else None
             top = ctx[-1] if ctx else None
-            ev.append(('join', Q.current_time, nid, ind.id_number))
+            ev.append(('join', Q.current_time, nid, ind.id_number,
+                       any(f[0] in ('shift', 'preempt', 'interrupt') and f[1] == nid for f in ctx)))
             r = orig(ind, *a, **k)
             ev.append(('accept', Q.current_time, nid, ind.id_number, ind.customer_class, ind.priority_class, pre_n,
                        ind.service_start_date is not False and ind.service_start_date == nd.now, idle, nwait, top))
             return r
         wrap(nd, 'accept', accept)
 
-        def release(orig, ind, next_node, reroute=False, nid=nid, nd=nd):
+        def release(orig, ind, next_node, reroute=False, *a, nid=nid, nd=nd, **k):
             ev.append(('release', Q.current_time, nid, ind.id_number, next_node.id_number, reroute, ind.is_blocked,
                        next_node.number_of_individuals, getattr(next_node, 'node_capacity', INF), true_pop(next_node)))
             ctx.append(('release', nid, ind.id_number))
             try:
-                return orig(ind, next_node, reroute) if reroute else orig(ind, next_node)
+                return orig(ind, next_node, reroute, *a, **k) if (reroute or a or k) else orig(ind, next_node)
             finally:
                 ctx.pop()
         wrap(nd, 'release', release)
 
-        def block(orig, ind, next_node, nid=nid):
+        def block(orig, ind, next_node, *a, nid=nid, **k):
             ev.append(('block', Q.current_time, nid, ind.id_number, next_node.id_number, next_node.number_of_individuals,
                        next_node.node_capacity, true_pop(next_node)))
-            return orig(ind, next_node)
+            return orig(ind, next_node, *a, **k)
         wrap(nd, 'block_individual', block)
 
-        def preempt(orig, victim, newind, nid=nid, nd=nd):
+        def preempt(orig, victim, newind, *a, nid=nid, nd=nd, **k):
             inserv = [(s.cust.id_number, s.cust.priority_class, s.cust.service_start_date, s.cust.is_blocked, s.offduty) for s in nd.servers if s.cust]
             ev.append(('preempt', Q.current_time, nid, victim.id_number, newind.id_number, victim.priority_class, newind.priority_class,
                        inserv, victim.service_time, victim.service_end_date, getattr(victim, 'reneging_date', INF)))
             ctx.append(('preempt', nid, victim.id_number))
             try:
-                return orig(victim, newind)
+                return orig(victim, newind, *a, **k)
             finally:
                 ctx.pop()
         wrap(nd, 'preempt', preempt)
 
-        def interrupt(orig, ind, nid=nid, nd=nd):
+        def interrupt(orig, ind, *a, nid=nid, nd=nd, **k):
             ev.append(('interrupt', Q.current_time, nid, ind.id_number, ind.is_blocked, ind.service_time, ind.service_end_date, nd.slotted))
             ctx.append(('interrupt', nid, ind.id_number))
             try:
-                return orig(ind)
+                return orig(ind, *a, **k)
             finally:
                 ctx.pop()
         wrap(nd, 'interrupt_service', interrupt)
 
-        def finish(orig, nid=nid, nd=nd):
+        def finish(orig, *a, nid=nid, nd=nd, **k):
             lst = nd.next_individual if isinstance(nd.next_individual, list) else None
             if lst is not None:
                 for i in lst: tr.precls[i.id_number] = i.customer_class
             ev.append(('finish_service', Q.current_time, nid, [i.id_number for i in lst] if lst is not None else None,
                        [i.is_blocked for i in lst] if lst is not None else None))
-            return orig()
+            return orig(*a, **k)
         wrap(nd, 'finish_service', finish)
 
         def renege(orig, nid=nid, nd=nd):
@@ -184,7 +189,7 @@ def instrument(Q, tr):
                 ctx.pop()
         wrap(nd, 'renege', renege)
 
-        def nextnode(orig, ind, nid=nid, nd=nd):
+        def nextnode(orig, ind, *a, nid=nid, nd=nd, **k):
             pops = {m.id_number: (m.number_of_individuals, m.number_in_service) for m in Q.transitive_nodes}
             cls = ind.customer_class
             route_before = [list(x) if isinstance(x, list) else x for x in ind.route] if hasattr(ind, 'route') else None
@@ -197,15 +202,16 @@ def instrument(Q, tr):
                 else:
                     w = sum(1 for i in m.all_individuals if (not i.server) or i in m.interrupted_individuals)
                 truth[m.id_number] = (len(m.all_individuals), w)
-            r = orig(ind)
+            r = orig(ind, *a, **k)
             ev.append(('route', Q.current_time, nid, ind.id_number, cls, r.id_number, pops, route_before,
                        tr.precls.get(ind.id_number, cls), truth))
             return r
         wrap(nd, 'next_node', nextnode)
 
-        def jock(orig, ind, nid=nid):
-            r = orig(ind)
-            ev.append(('jockey', Q.current_time, nid, ind.id_number, r.id_number))
+        def jock(orig, ind, *a, nid=nid, **k):
+            r = orig(ind, *a, **k)
+            ev.append(('jockey', Q.current_time, nid, ind.id_number, r.id_number,
+                       len(r.all_individuals) if r.id_number != -1 else 0, getattr(r, 'node_capacity', INF)))
             return r
         wrap(nd, 'next_node_for_jockeying', jock)
 
@@ -249,7 +255,7 @@ def instrument(Q, tr):
             wrap(nd, wname, wrec)
 
         if real:
-            def attach(orig, server, ind, nid=nid, nd=nd):
+            def attach(orig, server, ind, *a, nid=nid, nd=nd, **k):
                 waiting = [(w.id_number, w.priority_class, w.arrival_date, w in nd.interrupted_individuals)
                            for w in nd.all_individuals if w is not ind and not w.server]
                 inserv = [(s.cust.id_number, s.cust.priority_class) for s in nd.servers if s.cust]
@@ -257,12 +263,12 @@ def instrument(Q, tr):
                 ev.append(('attach', Q.current_time, nid, ind.id_number, server.id_number, ind.priority_class, ind.arrival_date,
                            ind in nd.interrupted_individuals, waiting, inserv, server.offduty, server in nd.servers,
                            nd.number_interrupted_individuals, order, bool(ind.server), ctx[-1] if ctx else None))
-                return orig(server, ind)
+                return orig(server, ind, *a, **k)
             wrap(nd, 'attach_server', attach)
 
-            def detach(orig, server, ind, nid=nid, nd=nd):
+            def detach(orig, server, ind, *a, nid=nid, nd=nd, **k):
                 ev.append(('detach', Q.current_time, nid, ind.id_number, server.id_number, server.offduty, ctx[-1] if ctx else None))
-                return orig(server, ind)
+                return orig(server, ind, *a, **k)
             wrap(nd, 'detatch_server', detach)
 
         def dbs(orig, nd=nd):
@@ -278,9 +284,9 @@ def instrument(Q, tr):
 
     ex = Q.nodes[-1]
 
-    def exacc(orig, ind, completed=True):
+    def exacc(orig, ind, completed=True, *a, **k):
         ev.append(('exit', Q.current_time, ind.id_number, completed))
-        return orig(ind, completed=completed)
+        return orig(ind, completed=completed, *a, **k) if (a or k) else orig(ind, completed=completed)
     wrap(ex, 'accept', exacc)
     an = Q.nodes[0]
 
@@ -292,11 +298,11 @@ def instrument(Q, tr):
         return r
     wrap(an, 'have_event', anev)
 
-    def relind(orig, next_node, ind):
+    def relind(orig, next_node, ind, *a, **k):
         tot = sum(len(m.all_individuals) for m in Q.transitive_nodes)
         ev.append(('arrive_try', Q.current_time, next_node.id_number, ind.id_number, next_node.number_of_individuals,
                    next_node.node_capacity, tot, len(next_node.all_individuals)))
-        return orig(next_node, ind)
+        return orig(next_node, ind, *a, **k)
     wrap(an, 'release_individual', relind)
 
 
